@@ -6,6 +6,7 @@ import (
 	"go/types"
 	"strings"
 
+	"golang.org/x/tools/go/packages"
 	"golang.org/x/tools/go/ssa"
 	"golang.org/x/tools/go/types/typeutil"
 
@@ -507,10 +508,34 @@ func checkGenTestParams(p *core.Program, r *core.Report, helpers []*hashHelper) 
 		}
 	}
 	n := 0
+	// the units of package main in which a hash helper may be called: the command actions and the package's functions
+	// (a generator extracted into insertionTestParams(depth, batch) *InsertionParameters)
+	type genUnit struct {
+		u    flow.FuncUnit
+		name string
+		obj  types.Object
+	}
+	var units []genUnit
 	for _, c := range cliCommands(p) {
-		if c.Action.Node == nil {
-			continue
+		if c.Action.Node != nil {
+			units = append(units, genUnit{c.Action, "main.cmd:" + c.Name, nil})
 		}
+	}
+	if mp := p.Pkg(""); mp != nil {
+		for _, f := range mp.Syntax {
+			for _, d := range f.Decls {
+				if fd, ok := d.(*ast.FuncDecl); ok && fd.Body != nil && fd.Name.Name != "main" {
+					units = append(units, genUnit{flow.FuncUnit{Pkg: mp, Node: fd, Name: "main." + fd.Name.Name}, "main." + fd.Name.Name, mp.TypesInfo.Defs[fd.Name]})
+				}
+			}
+		}
+	}
+	for _, gu := range units {
+		c := struct {
+			Action flow.FuncUnit
+			Pkg    *packages.Package
+			Name   string
+		}{gu.u, gu.u.Pkg, gu.name}
 		info := c.Pkg.TypesInfo
 		g := (*flow.Graph)(nil)
 		ast.Inspect(c.Action.Node, func(nd ast.Node) bool {
@@ -534,7 +559,7 @@ func checkGenTestParams(p *core.Program, r *core.Report, helpers []*hashHelper) 
 			if g == nil {
 				g = flow.NewGraph(c.Action)
 			}
-			cn := fmt.Sprintf("main.cmd:%s: %s on %s", c.Name, fn.Name(), pv.Name())
+			cn := fmt.Sprintf("%s: %s on %s", c.Name, fn.Name(), pv.Name())
 			callLoc, ok := g.Locate(call)
 			if !ok {
 				r.Undecided("O8.3", cn, p.Pos(call.Pos()), "helper call not located in the CFG")
@@ -587,6 +612,62 @@ func checkGenTestParams(p *core.Program, r *core.Report, helpers []*hashHelper) 
 				}
 				return true
 			})
+			if !marshalled && gu.obj != nil {
+				// the unit hands the struct back (return &params, dominated by the helper call) and a caller marshals that
+				// result
+				returned := false
+				ast.Inspect(c.Action.Node, func(m ast.Node) bool {
+					if _, isLit := m.(*ast.FuncLit); isLit {
+						return false
+					}
+					if ret, ok := m.(*ast.ReturnStmt); ok {
+						for _, x := range ret.Results {
+							if baseIdentVar(info, x) == pv {
+								if loc, ok := g.Locate(ret); ok && g.LocDominates(callLoc, loc) {
+									returned = true
+								}
+							}
+						}
+					}
+					return true
+				})
+				if returned {
+					for _, other := range units {
+						oi := other.u.Pkg.TypesInfo
+						ast.Inspect(other.u.Node, func(m ast.Node) bool {
+							mc, ok := m.(*ast.CallExpr)
+							if !ok {
+								return true
+							}
+							if f2, _ := typeutil.Callee(oi, mc).(*types.Func); f2 != nil && f2.FullName() == "encoding/json.Marshal" && len(mc.Args) == 1 {
+								if inner, ok := ast.Unparen(mc.Args[0]).(*ast.CallExpr); ok {
+									if f3, _ := typeutil.Callee(oi, inner).(*types.Func); f3 != nil && types.Object(f3) == gu.obj {
+										marshalled = true
+									}
+								}
+								if v := baseIdentVar(oi, mc.Args[0]); v != nil {
+									// x := unit(...); json.Marshal(x)
+									ast.Inspect(other.u.Node, func(q ast.Node) bool {
+										if as, ok := q.(*ast.AssignStmt); ok && len(as.Rhs) == 1 {
+											for _, l := range as.Lhs {
+												if identVar(oi, l) == v {
+													if inner, ok := ast.Unparen(as.Rhs[0]).(*ast.CallExpr); ok {
+														if f3, _ := typeutil.Callee(oi, inner).(*types.Func); f3 != nil && types.Object(f3) == gu.obj {
+															marshalled = true
+														}
+													}
+												}
+											}
+										}
+										return true
+									})
+								}
+							}
+							return true
+						})
+					}
+				}
+			}
 			if !marshalled {
 				probs = append(probs, "the struct the hash was computed for is not the one that is marshalled")
 			}
